@@ -188,7 +188,7 @@ func childSetup(e *mon.Env) {
 		go func() { time.Sleep(20 * time.Second); pprof.StopCPUProfile(); f.Close() }()
 	}
 	h = &harness{root: root}
-	h.run = &evalrun.Runner{New: newEvaler, Limits: evalrun.Limits{MaxValues: 200000, MaxBytes: 8 << 20, Deadline: 4 * time.Second, Grace: 2 * time.Second}}
+	h.run = &evalrun.Runner{New: newEvaler, IOWaitIsHang: true, Limits: evalrun.Limits{MaxValues: 200000, MaxBytes: 8 << 20, Deadline: 4 * time.Second, Grace: 2 * time.Second}}
 	// warm-up: everything that is created lazily once per process exists
 	// before the first baseline is taken
 	dir := h.freshDir()
@@ -206,6 +206,7 @@ func (h *harness) freshDir() string {
 	os.MkdirAll(dir, 0o755)
 	os.WriteFile(filepath.Join(dir, "in"), []byte("alpha\nbeta\ngamma delta\n\nlast-no-newline"), 0o644)
 	os.WriteFile(filepath.Join(dir, "rw"), []byte("0123456789"), 0o644)
+	os.MkdirAll(filepath.Join(dir, "d1"), 0o755)
 	os.WriteFile(filepath.Join(dir, "big"), []byte(strings.Repeat("line of text\n", 6000)), 0o644)
 	os.Chdir(dir)
 	return dir
@@ -280,21 +281,121 @@ func genPipeline(r *rand.Rand, cancelInside bool) string {
 // redirections for a whole block (any port) and for the last form of a
 // pipeline (not its stdin: a pipeline stage that redirects its own stdin
 // crashes today, C17)
-var redirs = []string{"> out", ">> out", "< in", "<> rw", "2>&1", ">&-", "2>&-", "> out 2>&1", "< nonexistent", "> out 7>&9", "> out > out2", ">> out 2>> out", "> nodir/x", "< in > out",
+var redirs = []string{"> out > nodir/x", "< in < nonexistent", ">> out > d1", "3> out 3< nonexistent", "> out", ">> out", "< in", "<> rw", "2>&1", ">&-", "2>&-", "> out 2>&1", "< nonexistent", "> out 7>&9", "> out > out2", ">> out 2>> out", "> nodir/x", "< in > out",
 	"> out < nonexistent", "3> out 3>&-", "2> err >&2", "> out 9< in", "5> out 6>&5 5>&-", "> out 2> out2 3> out3 4>&9"}
 var redirsNoStdin = []string{"> out", ">> out", "<> rw", "2>&1", ">&-", "2>&-", "> out 2>&1", "> out 7>&9", "> out > out2", ">> out 2>> out", "> nodir/x",
 	"3> out 3>&-", "2> err >&2", "> out 9< in", "5> out 6>&5 5>&-", "> out 9< nonexistent"}
 
+// A redirection that fails on a port the form already owns: the port was
+// given to the form by an earlier redirection of the same form, or it is the
+// pipe end a pipeline stage got from its neighbour. What the form owned must
+// be released all the same.
+var okOn = map[string][]string{
+	"0": {"< in", "0< in", "0<> rw", "stdin< big"},
+	"1": {"> out", ">> out", "<> rw", "1> out", "stdout> out"},
+	"2": {"2> err", "2>> err", "stderr> err"},
+	"3": {"3> out3", "3< in", "3>> out3"},
+}
+var failOn = map[string][]string{
+	"0": {"< nonexistent", "< nodir/x", "0< nonexistent", "0<> nodir/x", "0> d1", "stdin< nonexistent"},
+	"1": {"> nodir/x", ">> nodir/x", "> d1", "<> nodir/x", "1> nodir/x", "1< nonexistent", "stdout> d1"},
+	"2": {"2> nodir/x", "2>> d1", "2< nonexistent", "stderr> nodir/x"},
+	"3": {"3> nodir/x", "3< nonexistent", "3>> d1"},
+}
+var badFdOn = map[string][]string{"0": {"0<&9", "<&9"}, "1": {">&9", "1>&8"}, "2": {"2>&9"}, "3": {"3>&9"}}
+
+func failing(r *rand.Rand, port string) string {
+	if r.Intn(6) == 0 {
+		return badFdOn[port][r.Intn(len(badFdOn[port]))]
+	}
+	return failOn[port][r.Intn(len(failOn[port]))]
+}
+
+func pick(r *rand.Rand, ss []string) string { return ss[r.Intn(len(ss))] }
+
+// genRefail returns a pipeline in which some form meets a failing redirection
+// on a port it owns, and the class of the construction.
+func genRefail(r *rand.Rand) (string, string) {
+	prod := producers[r.Intn(len(producers))]
+	for prod.many {
+		prod = producers[r.Intn(len(producers))]
+	}
+	flt := filters[r.Intn(len(filters))].code
+	cons := consumers[r.Intn(len(consumers))].code
+	twice := func(port string) string {
+		s := pick(r, okOn[port])
+		if r.Intn(4) == 0 { // an unrelated successful redirection in between
+			other := []string{"0", "1", "2", "3"}[r.Intn(4)]
+			if other != port {
+				s += " " + pick(r, okOn[other])
+			}
+		}
+		s += " " + failing(r, port)
+		if r.Intn(4) == 0 {
+			s += " " + pick(r, okOn[[]string{"1", "2", "3"}[r.Intn(3)]]) // never reached
+		}
+		return s
+	}
+	port := []string{"0", "1", "1", "2", "3"}[r.Intn(5)]
+	switch r.Intn(8) {
+	case 0:
+		return "{ " + prod.code + " | " + cons + " } " + twice(port), "refail-block"
+	case 1:
+		return prod.code + " " + twice(port), "refail-single-form"
+	case 2: // last stage: its stdin is the pipe's read end
+		red := failing(r, "0")
+		if r.Intn(2) == 0 {
+			red = twice(port)
+		}
+		return prod.code + " | " + cons + " " + red, "refail-stage-stdin"
+	case 3: // first stage: its stdout is the pipe's write end and channel
+		red := failing(r, "1")
+		if r.Intn(2) == 0 {
+			red = twice(port)
+		}
+		return prod.code + " " + red + " | " + cons, "refail-stage-stdout"
+	case 4: // middle stage: both ends
+		red := failing(r, []string{"0", "1"}[r.Intn(2)])
+		if r.Intn(3) == 0 {
+			red = pick(r, okOn["0"]) + " " + failing(r, "1")
+		}
+		return prod.code + " | " + flt + " " + red + " | " + cons, "refail-stage-middle"
+	case 5:
+		return prod.code + " | { " + flt + " } " + twice(port) + " | " + cons, "refail-block-stage"
+	case 6: // a stage that fails this way next to stages that fail or leave early
+		return "range 600 | each {|x| put $x } " + failing(r, "1") + " | " + pick(r, []string{"take 1", "each {|x| fail f }", "nop", "each {|x| break }", "count"}), "refail-with-early-exit"
+	default:
+		return "echo first " + twice("1") + "; echo second", "refail-then-continue"
+	}
+}
+
 func genProgram(r *rand.Rand) (code, family string) {
 	switch k := r.Intn(100); {
-	case k < 22:
+	case k < 16:
 		return genPipeline(r, false), "pipeline"
 	case k < 40:
+		p, cls := genRefail(r)
+		switch r.Intn(8) {
+		case 0:
+			return "var v = (" + p + ")", cls + "+capture"
+		case 1:
+			return "put ?(" + p + ")", cls + "+exc-capture"
+		case 2:
+			return "try { " + p + " } catch e { put caught } finally { echo fin }", cls + "+try"
+		case 3:
+			return "try { put (" + p + ") } catch e { nop ?(" + p + ") }", cls + "+capture-in-try"
+		case 4:
+			return "run-parallel { " + p + " } { " + genPipeline(r, false) + " }", cls + "+run-parallel"
+		case 5:
+			return "peach {|x| try { " + p + " } catch e { put $x } } [a b c]", cls + "+peach"
+		}
+		return p, cls
+	case k < 52:
 		body := genPipeline(r, false)
 		if r.Intn(2) == 0 {
 			return "{ " + body + " } " + redirs[r.Intn(len(redirs))], "redirected-block"
 		}
-		return body + " " + redirsNoStdin[r.Intn(len(redirsNoStdin))], "redirected-last-form"
+		return body + " " + redirs[r.Intn(len(redirs))], "redirected-last-form"
 	case k < 58:
 		p := genPipeline(r, false)
 		switch r.Intn(6) {
@@ -381,10 +482,18 @@ func evaluate(c *mon.Case, code string, base census, reps int, family string) bo
 			c.Count("panics", 1)
 			return false
 		case o.Abandoned:
-			c.Inconclusive("evaluation-did-not-return(see C17)")
 			if os.Getenv("C40_DEBUG") != "" {
 				fmt.Fprintf(os.Stderr, "ABANDONED hang=%q running=%v: %s\n%s\n", o.HangSig, o.Running, code, o.HangDump)
 			}
+			if o.HangSig != "" {
+				// Eval never returns and every goroutine of it is blocked: what
+				// it created (a pipe end, a channel nobody closes) is never
+				// released. No generated program reads from outside.
+				c.Violation("never-finishes:"+o.HangSig, "the evaluation does not return and all of its goroutines are blocked (something it created was never closed): "+mon.Q(code),
+					map[string]any{"program": code, "family": family, "repetition": rep, "goroutines": clipAll([]string{o.HangDump})})
+				return false
+			}
+			c.Inconclusive("evaluation-did-not-return-still-running")
 			return false
 		}
 		switch {
@@ -459,6 +568,14 @@ func runProgram(c *mon.Case) {
 	dir := h.freshDir()
 	defer func() { os.Chdir(h.root); os.RemoveAll(dir) }()
 	code, family := genProgram(c.Rand)
+	if strings.HasPrefix(family, "refail-") {
+		cls, wrap, _ := strings.Cut(family, "+")
+		c.Count("refail_programs", 1)
+		c.Count(strings.ReplaceAll(cls, "-", "_"), 1)
+		if wrap != "" {
+			c.Count("refail_wrapped", 1)
+		}
+	}
 	withGCOff(func() {
 		base := takeCensus()
 		if evaluate(c, code, base, 3, family) {
@@ -531,13 +648,13 @@ func Spec() *mon.Spec {
 	return &mon.Spec{
 		ID:    "C40",
 		Level: "exploration",
-		Rule: "Phase programs: a generated program (pipelines of 1..4 stages with failing / early-exiting / interrupting stages; blocks and last forms with redirections to files, fds, closed ports and redirections that fail after an earlier one opened a file; " +
+		Rule: "Phase programs: a generated program (about a quarter: a form that meets a failing redirection - missing file, missing directory, directory, unopened fd - on a port it already owns, because an earlier redirection of the same form opened it or because it is the pipe end of a pipeline stage, plain and inside captures / try / run-parallel / peach; otherwise pipelines of 1..4 stages with failing / early-exiting / interrupting stages; blocks and last forms with redirections to files, fds, closed ports and redirections that fail after an earlier one opened a file; " +
 			"output and exception captures, also nested and inside failing try; peach / run-parallel; file readers with early exit; interruption through a harness builtin that cancels the evaluation's context) is evaluated 3 times on one Evaler; " +
 			"after each Eval the open descriptors (/proc/self/fd with link targets) and the goroutines with src.elv.sh frames are compared with the census taken just before, with a settle loop of up to 2 s and the garbage collector disabled (finalizers would close leaked files). " +
 			"Phase repeat: one program evaluated 120 (quick) / 300 (thorough) times back to back, then the same comparison. Non-trivial = distinct program whose three evaluations all returned and were compared.",
 		Assumptions: []string{
 			"Excluded by construction, as in the property: background jobs (&), explicit file:open / file:pipe, external commands (PATH is empty).",
-			"Programs avoid the crash and hang classes recorded under C17 (pipeline stage redirecting its own stdin, value output to input ports, value input from ports without channel, negative fds) and program-level deadlocks permitted by the documented buffering (a long value stream into a reader of bytes only); an evaluation that panics or does not return is counted inconclusive here.",
+			"Programs avoid the crash classes recorded under C17 (value output to input ports, $nil arguments, negative fds) and program-level deadlocks permitted by the documented buffering (a long value stream into a reader of bytes only); an evaluation that panics, or that is given up while some goroutine of it can still run, is counted inconclusive here. An evaluation that does not return while all of its goroutines are blocked is a violation (something it created was never closed); no generated program reads from outside the evaluation, so a goroutine waiting in a read counts as blocked.",
 			"The capture ports of the harness are eval.PipePort ports; their pipes and goroutines are part of what must be gone after Eval returned and the port's cleanup function was called.",
 			"Only a surplus that persists for 2 s counts; nothing is demanded about the moment Eval returns.",
 		},
@@ -548,6 +665,8 @@ func Spec() *mon.Spec {
 		},
 		Floors: map[string]int{
 			"distinct_nontrivial": 500, "families": 15, "evaluations": 3000,
+			"refail_programs": 120, "refail_wrapped": 60, "refail_block": 8, "refail_single_form": 8, "refail_stage_stdin": 8, "refail_stage_stdout": 8,
+			"refail_stage_middle": 8, "refail_block_stage": 8, "refail_with_early_exit": 8, "refail_then_continue": 8,
 			"ended-normally": 600, "ended-by-exception": 500, "ended-interrupted": 60, "repeat-series-flat": 8,
 		},
 	}
